@@ -37,16 +37,17 @@ NOFAC = (0, 0, 0)
 
 class Plan:
     """What transform_ast does for one request in free-running mode."""
-    __slots__ = ('fail', 'nested', 'propagate')
+    __slots__ = ('fail', 'nested', 'propagate', 'parse_fail')
 
-    def __init__(self, fail=False, nested=None, propagate=False):
+    def __init__(self, fail=False, nested=None, propagate=False, parse_fail=False):
+        self.parse_fail = parse_fail  # raise InjectedFault before transform_ast is entered
         self.fail = fail            # raise InjectedFault instead of transforming
         self.nested = nested        # (fn, options, Plan) requested from inside transform_ast
         self.propagate = propagate  # a failing nested request fails the outer transform as well
 
 
 class Frame:
-    __slots__ = ('fn', 'cid', 'eid', 'oid', 'has_calls', 'plan', 'pending', 'stored')
+    __slots__ = ('fn', 'cid', 'eid', 'oid', 'has_calls', 'plan', 'pending', 'stored', 'phase')
 
 
 class Probe:
@@ -135,6 +136,7 @@ class Probe:
         fr.plan = getattr(self.tls, 'next_plan', None)
         fr.pending = None
         fr.stored = False
+        fr.phase = 'requested'
         self.tls.next_plan = None
         self.frames().append(fr)
         t = self.tid()
@@ -237,6 +239,17 @@ class LockProxy:
         return self
 
     def __exit__(self, et, ev, tb):
+        if et is not None:
+            # an exception that is not one of the logged transform failures: raised while reading / parsing
+            # the source, before transform_ast was entered
+            p = self.p
+            fr = p.top()
+            if fr is not None and fr.phase in ('requested', 'begun'):
+                kind = ('ParseFail', 'parse_fail') if fr.phase == 'requested' else ('TransformFail', 'transform_fail')
+                p.sync((kind[0],))
+                fr.phase = 'failed'
+                p.ev(kind[1], key=fr.cid, sub=fr.oid)
+                p.park()
         self.release(('ReleaseFail',) if et is not None else ('Release',))
         return False
 
@@ -344,15 +357,29 @@ def traced_transpiler(probe):
             probe.finish(fr, res)
             return res
 
-        def transform_ast(self, node, ctx):
+        def get_transformed_name(self, node):
+            # called by GenericTranspiler.transform_function after the source has been read and parsed and
+            # before transform_ast: the point where the transformation proper begins
             p = probe
             fr = p.top()
             k = (fr.cid, fr.oid)
-            p.sync(('TransformBegin',))
+            item = p.sync(('TransformBegin', 'ParseFail'))
+            if (item is not None and item['a'] == 'ParseFail') or (
+                    item is None and fr.plan is not None and fr.plan.parse_fail):
+                fr.phase = 'failed'
+                p.ev('parse_fail', key=fr.cid, sub=fr.oid)
+                p.park()
+                raise InjectedFault('injected failure before transform_ast')
             with p.evlock:
                 p.natt[k] = p.natt.get(k, 0) + 1
+            fr.phase = 'begun'
             p.ev('transform_begin', key=fr.cid, sub=fr.oid)
             p.park()
+            return super().get_transformed_name(node)
+
+        def transform_ast(self, node, ctx):
+            p = probe
+            fr = p.top()
             nested_done = False
             while True:
                 item = p.sync(('Nested', 'TransformFail', 'TransformOk'))
@@ -375,24 +402,28 @@ def traced_transpiler(probe):
                     p.tls.next_plan = nplan
                     try:
                         self.transform(nfn, converter.ProgramContext(options=nopts))
-                    except InjectedFault:
+                    except Exception:  # noqa: BLE001 - the nested request failed (injected, or no source)
                         if item is None and plan.propagate:
+                            fr.phase = 'failed'
                             p.ev('transform_fail', key=fr.cid, sub=fr.oid)
-                            raise
+                            raise InjectedFault('the nested request failed') from None
                     finally:
                         del nfn
                     p.park_deferred()
                     continue
                 if act == 'TransformFail':
+                    fr.phase = 'failed'
                     p.ev('transform_fail', key=fr.cid, sub=fr.oid)
                     p.park()
                     raise InjectedFault('injected transform failure')
                 try:
                     out = super().transform_ast(node, ctx)
                 except BaseException:
+                    fr.phase = 'failed'
                     p.ev('transform_fail', key=fr.cid, sub=fr.oid)
                     p.park()
                     raise
+                fr.phase = 'ok'
                 p.mark_transform_ok(fr)
                 p.park()
                 return out
